@@ -7,7 +7,7 @@ CONTRACT_MODULES = ALL_CONTRACTS
 FUNCTIONS = [S + "exitExcludedRegion", S + "disableExclusion", S + "processLinearMoves", "RetractionState.RetractionState._addCommands",
              H + "_handle_G10", H + "_handle_G11", H + "handleAtCommand", "GcodeParser.GcodeParser.buildCommand", "GcodeParser.formatNumber"]
 ASSUMPTIONS = ["A1", "A2", "A4"]
-BOUNDED = [script("format_number.py"), script("retract_params.py")]
+BOUNDED = [script("format_number.py"), script("retract_params.py"), script("merge_roundtrip.py")]
 EXTRA_ASSUMPTIONS = ["'yields exactly the intended values': the interpolated values are the ones C03/C04 prove correct; this property adds that their rendering is readable",
                      "G10/G11 copy the parameter text of the original command verbatim (not synthesised numbers)",
                      "non-finite floats (inf/nan) are outside A1",
